@@ -35,7 +35,7 @@ def run(run):
     run.negative_control_trace("trace/Trace_RoundedFormat.tla", "trace/Trace_RoundedFormat.cfg", small2,
                                corrupt_first(lambda e: e.get("op") == "Fmt.Instant" and e["out"]["kind"] == "ok", flip_last_digit))
     run.cov["rule"] = ("replay: one case per (x, increment, mode) of the exhaustive small table (both rounder instantiations) and per "
-                      "(entry point, unit, admissible increment, sign, parity, remainder class, mode), and per (type, value, precision -2..9, mode) of toString for PlainTime, PlainDateTime, Instant, "
+                      "(entry point, unit, admissible increment, sign, parity, remainder class, mode), and per (type, value, precision -2..9, mode) of toString for PlainTime, PlainDateTime, Instant, Duration, "
                       "ZonedDateTime; traces: seeded values q*n+r with ties over-sampled, through the rounding entry points and through toString")
     run.cov["distinct_nontrivial"] = run.cov["evaluations"]
     run.assumptions += ["Instant.round (and instant strings) are judged with Temporal's RoundNumberToIncrementAsIfPositive; differences (until/since) and durations with the signed RoundNumberToIncrement (DESIGN.md Appendix A)"]
